@@ -587,6 +587,7 @@ func checkCombinator(p *load.Program, s *oblig.Set, fn *ssa.Function, parserT ty
 // tlexer (X5, X6): the transaction primitives and accessors of the
 // transactional lexer.
 var liveField = regexp.MustCompile(`^\.(\w+)\(LEXER\)$`)
+var cachedField = regexp.MustCompile(`\.(\w+)\((?:deref\()?elemaddr\(STACK,RP\)\)`)
 
 func tlexer(p *load.Program, s *oblig.Set) {
 	sp := p.SPkg("lexer")
@@ -600,9 +601,10 @@ func tlexer(p *load.Program, s *oblig.Set) {
 	}
 	T := obj.Type()
 	st := T.Underlying().(*types.Struct)
-	fld := map[string]int{}
-	for i := 0; i < st.NumFields(); i++ {
-		fld[st.Field(i).Name()] = i
+	fld := tlexerRoles(p, st)
+	roleOfField := map[int]string{}
+	for r, i := range fld {
+		roleOfField[i] = r
 	}
 	for _, n := range []string{"stack", "pointers", "readp", "lexer"} {
 		if _, ok := fld[n]; !ok {
@@ -627,9 +629,7 @@ func tlexer(p *load.Program, s *oblig.Set) {
 		}
 		f[fld["lexer"]] = absint.NewVar("LEXER", st.Field(fld["lexer"]).Type())
 		for i := 0; i < st.NumFields(); i++ {
-			switch st.Field(i).Name() {
-			case "stack", "pointers", "readp", "writep", "lexer":
-			default:
+			if roleOfField[i] == "" {
 				// any further state is unknown: a primitive that consults it is not a
 				// function of the position, the cache and the live lexer any more
 				f[i] = absint.NewVar("EXTRA."+st.Field(i).Name(), st.Field(i).Type())
@@ -706,18 +706,23 @@ func tlexer(p *load.Program, s *oblig.Set) {
 	if est == nil {
 		return
 	}
-	for acc, fname := range map[string]string{"Token": "token", "Err": "err", "From": "from", "To": "to"} {
+	// which field of a cached entry stands for what is read off the accessors:
+	// Token() answers with the entry's token field, whatever it is called
+	recRole := map[string]string{} // record field name -> token / err / from / to
+	for _, acc := range []string{"Token", "Err", "From", "To"} {
+		fname := strings.ToLower(acc)
 		_, res, end, ok := run(acc)
 		if !ok {
 			continue
 		}
 		k := "lexer.TLexer." + acc + " / answers from the cached entry at the read position"
 		got := absint.Key(res)
-		want := "." + fname + "(deref(elemaddr(STACK,RP)))"
-		if end == nil && (got == want || got == "deref("+want+")" || strings.Contains(got, fname+"(deref(elemaddr(STACK,RP)))") || strings.Contains(got, "deref(."+fname+"(elemaddr(STACK,RP)))")) {
-			s.OK("X6", k, pos(acc), "stack[readp]."+fname)
+		m := cachedField.FindStringSubmatch(got)
+		if end == nil && m != nil && recRole[m[1]] == "" && strings.Count(got, "elemaddr(") == 1 && !strings.ContainsAny(got, "+-*") && !strings.Contains(got, "LEXER") {
+			recRole[m[1]] = fname
+			s.OK("X6", k, pos(acc), "stack[readp]."+m[1])
 		} else {
-			s.Bad("X6", k, pos(acc), "after a rollback the lexer must answer from the cached entry stack[readp]."+fname+"; it answers "+got+": a replayed token would carry the state of the live lexer")
+			s.Bad("X6", k, pos(acc), "after a rollback the lexer must answer from a field of its own of the cached entry stack[readp]; it answers "+got+": a replayed token would carry the state of the live lexer")
 		}
 	}
 	// X6: Next caches exactly what the live lexer produced
@@ -757,30 +762,37 @@ func tlexer(p *load.Program, s *oblig.Set) {
 			// those are what Snapshot/Rollback/Commit restore or deliberately keep
 			foreign := ""
 			for _, cl := range in.CondLog {
-				if !strings.Contains(cl, "(RP,("+wpName+"-1))") && !strings.Contains(cl, "lexer.Next()") && !strings.Contains(cl, "LEXER") {
+				if !nativeCond(cl) {
 					foreign = cl
 				}
 			}
 			for i := 0; i < st.NumFields(); i++ {
-				switch st.Field(i).Name() {
-				case "stack", "pointers", "readp", "writep", "lexer":
-				default:
+				if roleOfField[i] == "" {
 					if v := absint.Key(c.V.(*absint.Struct).F[i]); v != "EXTRA."+st.Field(i).Name() {
 						foreign = "field " + st.Field(i).Name() + " := " + v
 					}
 				}
 			}
+			// what the path knows about the position, as linear facts
+			facts := &absint.LinFacts{}
+			for _, cv := range in.CondV {
+				facts.AddCond(cv)
+			}
+			wLin, rpLin := absint.LinAtom(wpName), absint.LinAtom("RP")
 			switch {
 			case foreign != "":
 				s.Bad("X6", k+" / state outside the transaction", p.Pos(nextFn.Pos()), "Next consults or changes state that Snapshot/Rollback do not restore ("+foreign+"): after a rollback the lexer would not replay the tokens it handed out before", in.CondLog...)
 			case appended == nil && isC && b && rp == "(RP+1)" && wp == "WP":
 				seenReplay = true
 				cond := strings.Join(in.CondLog, "; ")
-				if strings.Contains(cond, "<(RP,("+wpName+"-1)) := true") || strings.Contains(cond, ">=(RP,("+wpName+"-1)) := false") {
+				// readp < writep-1, however it is spelt
+				if facts.Proves(wLin.Sub(rpLin).Plus(-2)) {
 					s.OK("X6", k+" / replay", p.Pos(nextFn.Pos()), "while readp < writep-1 the next cached token is replayed")
 				} else {
 					s.Bad("X6", k+" / replay", p.Pos(nextFn.Pos()), "replay happens under condition ["+cond+"], expected readp < writep-1")
 				}
+			case appended != nil && isC && b && !facts.Proves(rpLin.Sub(wLin).Plus(1)):
+				s.Bad("X6", k+" / pull", p.Pos(nextFn.Pos()), "a new token is pulled from the live lexer although cached tokens may still lie ahead of the read position (the path does not establish readp >= writep-1): "+strings.Join(in.CondLog, "; "))
 			case appended != nil && isC && b:
 				seenPull = true
 				es, _ := appended.(*absint.Struct)
@@ -792,7 +804,8 @@ func tlexer(p *load.Program, s *oblig.Set) {
 					for i := 0; i < est.NumFields(); i++ {
 						fk := absint.Key(es.F[i])
 						m := liveField.FindStringSubmatch(fk)
-						if m == nil || seenF[m[1]] || !strings.EqualFold(m[1], est.Field(i).Name()) && !(est.Field(i).Name() == "token" && m[1] == "Token") {
+						role := recRole[est.Field(i).Name()]
+						if m == nil || seenF[m[1]] || role == "" || !strings.EqualFold(m[1], role) {
 							okf = false
 						}
 						if m != nil {
@@ -823,4 +836,95 @@ func tlexer(p *load.Program, s *oblig.Set) {
 	if !seenReplay || !seenPull {
 		s.Bad("X6", "lexer.TLexer.Next / paths", p.Pos(nextFn.Pos()), "Next must have a replay path and a pull path")
 	}
+}
+
+// tlexerRoles finds the fields of TLexer by what they hold: the token cache (a
+// slice of records), the snapshot stack (a slice of ints), the live lexer (a
+// struct of the package), the read position and -- when there is one -- the
+// write position (ints; NewTLexer starts the read position below zero).
+func tlexerRoles(p *load.Program, st *types.Struct) map[string]int {
+	fld := map[string]int{}
+	var ints []int
+	for i := 0; i < st.NumFields(); i++ {
+		t := st.Field(i).Type()
+		switch u := t.Underlying().(type) {
+		case *types.Slice:
+			if _, isStruct := u.Elem().Underlying().(*types.Struct); isStruct {
+				if _, dup := fld["stack"]; !dup {
+					fld["stack"] = i
+				}
+			} else if b, ok := u.Elem().Underlying().(*types.Basic); ok && b.Kind() == types.Int {
+				if _, dup := fld["pointers"]; !dup {
+					fld["pointers"] = i
+				}
+			}
+		case *types.Struct:
+			if n, ok := t.(*types.Named); ok && n.Obj().Pkg() != nil && strings.HasSuffix(n.Obj().Pkg().Path(), "/lexer") {
+				if _, dup := fld["lexer"]; !dup {
+					fld["lexer"] = i
+				}
+			}
+		case *types.Basic:
+			if u.Kind() == types.Int {
+				ints = append(ints, i)
+			}
+		}
+	}
+	switch len(ints) {
+	case 1:
+		fld["readp"] = ints[0]
+	case 2:
+		// the constructor tells them apart: the read position starts at -1
+		rd := -1
+		if ctor := p.Func("lexer", "NewTLexer"); ctor != nil && len(ctor.Params) == 1 {
+			in := absint.NewInterp(p.SSA, &absint.Oracle{})
+			in.Hooks.Call = func(in *absint.Interp, fn *ssa.Function, args []absint.Val, site ssa.Instruction) (absint.Val, bool) {
+				if fn.Pkg == nil || !strings.HasPrefix(fn.Pkg.Pkg.Path(), load.ModPath) {
+					if fn.Signature.Results().Len() == 1 {
+						return &absint.Sym{Op: fn.String(), Args: args, T: fn.Signature.Results().At(0).Type()}, true
+					}
+				}
+				return nil, false
+			}
+			if res, end := in.Run(ctor, []absint.Val{absint.NewVar("IN", types.Typ[types.String])}); end == nil {
+				if rs, ok := res.(*absint.Struct); ok {
+					for _, i := range ints {
+						if c, ok := absint.ConstInt(rs.F[i]); ok && c < 0 {
+							rd = i
+						}
+					}
+				}
+			}
+		}
+		if rd < 0 {
+			// fall back on the names
+			for _, i := range ints {
+				if st.Field(i).Name() == "readp" {
+					rd = i
+				}
+			}
+		}
+		for _, i := range ints {
+			if i == rd {
+				fld["readp"] = i
+			} else if rd >= 0 {
+				fld["writep"] = i
+			}
+		}
+	}
+	return fld
+}
+
+// nativeCond: a decision of TLexer.Next that only asks about the read
+// position, the cache, the live lexer and what it returned.
+func nativeCond(cl string) bool {
+	for _, tok := range []string{"lexer.Next()", "len(STACK)", "LEXER", "STACK", "RP", "WP", ":= true", ":= false", "nil"} {
+		cl = strings.ReplaceAll(cl, tok, "")
+	}
+	for _, r := range cl {
+		if (r >= 'a' && r <= 'z') || (r >= 'A' && r <= 'Z') {
+			return false
+		}
+	}
+	return true
 }
